@@ -3,7 +3,7 @@
    deep chain are errors, every other import is kept as a statement. *)
 From Coq Require Import String.
 From Coq Require Import List Ascii Bool NArith Arith Lia.
-Require Import Model.Text Model.Ast Model.Scope Model.Ident Model.Fmt Model.Eval Gen.PLimits Model.Import.
+Require Import Model.Text Model.Paths Model.Ast Model.Scope Model.Ident Model.Fmt Model.Eval Gen.PLimits Model.Import.
 Import ListNotations.
 Local Open Scope char_scope.
 
